@@ -1,0 +1,119 @@
+// SPDX-FileCopyrightText: 2026 The Pion community <https://pion.ly>
+// SPDX-License-Identifier: MIT
+
+//go:build verif
+
+package rfc8888
+
+// Machine-checked contracts (comment-only; read by /verif/govc, never compiled into a normal build).
+//
+// Property C08.
+//
+//@ # arrival time offset field: 0x1FFF for arrivals after the report, 0x1FFE when too large, else 1/1024 s units (float conversion uninterpreted)
+//@ func getArrivalTimeOffset
+//@   functional
+//@   modifies nothing
+//@   ensures after_report: base.Before(arrival) ==> result == 0x1FFF
+//@   ensures saturates: !base.Before(arrival) && base.Sub(arrival).Seconds() * 1024.0 > 8189.0 ==> result == 0x1FFE
+//@   ensures value: !base.Before(arrival) && !(base.Sub(arrival).Seconds() * 1024.0 > 8189.0) ==> result == uint16(base.Sub(arrival).Seconds() * 1024.0)
+//@
+//@ # the log holds exactly the first arrival of every sequence number in [next, last] that arrived and is not yet acknowledged
+//@ pred logInv(l *streamLog) := l.log != nil && (l.init ==> l.sequence.init) && (!l.init ==> forall k int64 :: !has(l.log, k)) && (l.sequence.init ==> l.sequence.lastUnwrapped >= 0)
+//@     && (forall k int64 :: has(l.log, k) ==> l.nextSequenceNumberToReport <= k && k <= l.lastSequenceNumberReceived && l.log[k] != nil)
+//@ # assumption on histories (not an invariant): fewer than 2^61 packets per stream
+//@ pred logShort(l *streamLog) := (l.sequence.init ==> l.sequence.lastUnwrapped < (1 << 61)) && -(1 << 61) < l.lastSequenceNumberReceived && l.lastSequenceNumberReceived < (1 << 61)
+//@     && -(1 << 61) < l.nextSequenceNumberToReport && l.nextSequenceNumberToReport < (1 << 61)
+//@
+//@ func (*streamLog).add
+//@   requires inv: logInv(l)
+//@   requires short_history: logShort(l)
+//@   modifies l.sequence.init, l.sequence.lastUnwrapped, l.init, l.nextSequenceNumberToReport, l.lastSequenceNumberReceived, l.log[*]
+//@   ensures inv: logInv(l)
+//@   ensures unwrapped: uint16(l.sequence.lastUnwrapped) == sequenceNumber && l.init
+//@   ensures first_sets_cursor: !old(l.init) ==> l.nextSequenceNumberToReport == l.sequence.lastUnwrapped
+//@   ensures cursor_kept: old(l.init) ==> l.nextSequenceNumberToReport == old(l.nextSequenceNumberToReport)
+//@   ensures already_acknowledged_ignored: l.sequence.lastUnwrapped < l.nextSequenceNumberToReport ==>
+//@        (forall k int64 :: has(l.log, k) == washas(l.log, k) && l.log[k] == wasat(l.log, k)) && l.lastSequenceNumberReceived == old(l.lastSequenceNumberReceived)
+//@   ensures recorded: l.sequence.lastUnwrapped >= l.nextSequenceNumberToReport ==> has(l.log, l.sequence.lastUnwrapped)
+//@        && l.lastSequenceNumberReceived == ite(old(l.lastSequenceNumberReceived) < l.sequence.lastUnwrapped, l.sequence.lastUnwrapped, old(l.lastSequenceNumberReceived))
+//@   ensures first_copy_kept: l.sequence.lastUnwrapped >= l.nextSequenceNumberToReport && washas(l.log, l.sequence.lastUnwrapped) ==> l.log[l.sequence.lastUnwrapped] == wasat(l.log, l.sequence.lastUnwrapped)
+//@   ensures new_entry: l.sequence.lastUnwrapped >= l.nextSequenceNumberToReport && !washas(l.log, l.sequence.lastUnwrapped) ==> fresh(l.log[l.sequence.lastUnwrapped])
+//@        && l.log[l.sequence.lastUnwrapped].arrivalTime == ts && l.log[l.sequence.lastUnwrapped].ecn == ecn
+//@   ensures others_kept: forall k int64 :: k != l.sequence.lastUnwrapped ==> has(l.log, k) == washas(l.log, k) && l.log[k] == wasat(l.log, k)
+//@
+//@ # first sequence number of the report range: the cursor, or later if the size limit pushes old packets out (newest kept)
+//@ def rangeStart(l *streamLog, maxBlocks int64) int64 := ite(l.lastSequenceNumberReceived - l.nextSequenceNumberToReport + 1 > maxBlocks,
+//@        l.lastSequenceNumberReceived - maxBlocks + 1, l.nextSequenceNumberToReport)
+//@
+//@ func (*streamLog).metricsAfter
+//@   requires inv: logInv(l)
+//@   requires short_history: logShort(l)
+//@   requires limit: 0 <= maxReportBlocks && maxReportBlocks < (1 << 31)
+//@   modifies l.nextSequenceNumberToReport, l.log[*]
+//@   ensures inv: logInv(l)
+//@   ensures ssrc: result.MediaSSRC == l.ssrc
+//@   ensures size_limit: len(result.MetricBlocks) <= int(maxReportBlocks)
+//@   ensures begin: result.BeginSequence == uint16(old(rangeStart(l, maxReportBlocks))) || old(len(l.log)) == 0
+//@   ensures contiguous_up_to_highest: old(len(l.log)) != 0 ==> len(result.MetricBlocks) == int(l.lastSequenceNumberReceived - old(rangeStart(l, maxReportBlocks)) + 1)
+//@   ensures received_iff_arrived: old(len(l.log)) != 0 ==> forall i int :: 0 <= i && i < len(result.MetricBlocks) ==>
+//@        (result.MetricBlocks[i].Received <==> washas(l.log, old(rangeStart(l, maxReportBlocks)) + int64(i)))
+//@   ensures offsets: old(len(l.log)) != 0 ==> forall i int :: 0 <= i && i < len(result.MetricBlocks) && washas(l.log, old(rangeStart(l, maxReportBlocks)) + int64(i)) ==>
+//@        result.MetricBlocks[i].ArrivalTimeOffset == getArrivalTimeOffset(reference, wasat(l.log, old(rangeStart(l, maxReportBlocks)) + int64(i)).arrivalTime)
+//@   ensures cursor_prefix: old(len(l.log)) != 0 ==> l.nextSequenceNumberToReport >= old(rangeStart(l, maxReportBlocks))
+//@        && (forall k int64 :: old(rangeStart(l, maxReportBlocks)) <= k && k < l.nextSequenceNumberToReport ==> washas(l.log, k))
+//@   ensures never_forgotten: forall k int64 :: has(l.log, k) <==> (washas(l.log, k) && k >= l.nextSequenceNumberToReport)
+//@   ensures entries_kept: forall k int64 :: has(l.log, k) ==> l.log[k] == wasat(l.log, k)
+//@   ensures highest_kept: l.lastSequenceNumberReceived == old(l.lastSequenceNumberReceived)
+//@   loop 1 invariant trim: forall k int64 :: (has(l.log, k) ==> washas(l.log, k) && l.log[k] == wasat(l.log, k)) && (washas(l.log, k) && !has(l.log, k) ==> k < newNext)
+//@        && (visited(l.log, k) && k < newNext ==> !has(l.log, k))
+//@   loop 1 invariant shape: l.nextSequenceNumberToReport == old(l.nextSequenceNumberToReport) && l.lastSequenceNumberReceived == old(l.lastSequenceNumberReceived) && l.log == old(l.log)
+//@   loop 2 invariant range: offset <= i && i <= l.lastSequenceNumberReceived + 1 && offset == old(rangeStart(l, maxReportBlocks)) && len(metricBlocks) == int(l.lastSequenceNumberReceived - offset + 1)
+//@        && l.lastSequenceNumberReceived == old(l.lastSequenceNumberReceived) && l.log == old(l.log) && fresh(metricBlocks)
+//@   loop 2 invariant cursor: offset <= l.nextSequenceNumberToReport && l.nextSequenceNumberToReport <= i
+//@        && (forall k int64 :: offset <= k && k < l.nextSequenceNumberToReport ==> washas(l.log, k))
+//@        && (l.nextSequenceNumberToReport < i ==> !washas(l.log, l.nextSequenceNumberToReport) || gapDetected)
+//@        && (!gapDetected ==> lastReceived + 1 >= i - 1 && lastReceived <= i)
+//@   loop 2 invariant entries: forall k int64 :: (has(l.log, k) <==> (washas(l.log, k) && k >= l.nextSequenceNumberToReport && k >= offset)) && (has(l.log, k) ==> l.log[k] == wasat(l.log, k))
+//@   loop 2 invariant blocks: forall j int :: 0 <= j && int64(j) < i - offset ==> (metricBlocks[j].Received <==> washas(l.log, offset + int64(j)))
+//@        && (washas(l.log, offset + int64(j)) ==> metricBlocks[j].ArrivalTimeOffset == getArrivalTimeOffset(reference, wasat(l.log, offset + int64(j)).arrivalTime))
+//@   loop 2 decreases l.lastSequenceNumberReceived + 1 - i
+//@
+//@ # size budget of a report: 12 bytes of header, per stream 8 bytes plus 2 bytes per metric block (an even number of blocks, so no padding)
+//@ def perStreamBudget(maxSize int, streams int) int := ((ite((maxSize - 12 - 8 * streams) / 2 > 0, (maxSize - 12 - 8 * streams) / 2, 0)) / streams) &^ 1
+//@ # (1) whole pairs of blocks for s streams never need more than 2N bytes when each stream gets (N/s rounded down to even) blocks
+//@ lemma rfc8888_pairs_fit: forall n int, s int :: 0 <= n && n < (1 << 31) && 1 <= s && s < 65536 ==> s * (2 * ((n / s) &^ 1)) <= 2 * n && ((n / s) &^ 1) % 2 == 0 && ((n / s) &^ 1) >= 0
+//@ # (2) N = max((maxSize - 12 - 8s)/2, 0) leaves room for the 12-byte header and the 8-byte per-stream headers
+//@ lemma rfc8888_headers_fit: forall maxSize int, s int :: 1 <= s && s < 65536 && 12 + 8 * s <= maxSize && maxSize < (1 << 32) ==>
+//@        12 + 8 * s + 2 * ite((maxSize - 12 - 8 * s) / 2 > 0, (maxSize - 12 - 8 * s) / 2, 0) <= maxSize
+//@
+//@ pred recInv(r *Recorder) := r.streams != nil && (forall s uint32 :: has(r.streams, s) ==> r.streams[s] != nil && logInv(r.streams[s]) && logShort(r.streams[s]))
+//@     && (forall a uint32, b uint32 :: has(r.streams, a) && has(r.streams, b) && a != b ==> r.streams[a] != r.streams[b] && r.streams[a].log != r.streams[b].log)
+//@
+//@ func (*Recorder).BuildReport
+//@   requires inv: recInv(r)
+//@   requires limits: 0 <= maxSize && maxSize < (1 << 31) && len(r.streams) < 65536
+//@   modifies all streamLog.*, mem map[int64]*packetReport, mem rtcp.CCFeedbackReportBlock
+//@   ensures timestamp: result.ReportTimestamp == ntp.ToNTP32(now) && result.SenderSSRC == r.ssrc
+//@   ensures one_block_per_stream: len(result.ReportBlocks) == old(len(r.streams))
+//@   ensures per_stream_limit: old(len(r.streams)) > 0 ==> forall i int :: 0 <= i && i < len(result.ReportBlocks) ==> len(result.ReportBlocks[i].MetricBlocks) <= perStreamBudget(maxSize, old(len(r.streams)))
+//@   loop 1 opt noautoframe
+//@   loop 1 invariant count: len(report.ReportBlocks) == visitedcount(r.streams) && fresh(report) && fresh(report.ReportBlocks) && r.streams == old(r.streams) && len(r.streams) == old(len(r.streams))
+//@        && report.ReportTimestamp == ntp.ToNTP32(now) && report.SenderSSRC == r.ssrc
+//@   loop 1 invariant limit: forall i int :: 0 <= i && i < len(report.ReportBlocks) ==> len(report.ReportBlocks[i].MetricBlocks) <= maxReportBlocksPerStream
+//@   loop 1 invariant budget: maxReportBlocksPerStream == perStreamBudget(maxSize, len(r.streams)) && 0 <= maxReportBlocksPerStream && maxReportBlocksPerStream < (1 << 31)
+//@   loop 1 invariant streams_ok: forall s uint32 :: has(r.streams, s) && !visited(r.streams, s) ==> r.streams[s] != nil && logInv(r.streams[s]) && logShort(r.streams[s])
+//@   loop 1 invariant distinct: forall a uint32, b uint32 :: has(r.streams, a) && has(r.streams, b) && a != b ==> r.streams[a] != r.streams[b] && r.streams[a].log != r.streams[b].log
+//@
+//@ func newStreamLog
+//@   modifies nothing
+//@   ensures fresh: fresh(result) && fresh(result.log) && result.ssrc == ssrc && !result.init && !result.sequence.init
+//@        && result.nextSequenceNumberToReport == 0 && result.lastSequenceNumberReceived == 0 && logInv(result)
+//@
+//@ # every packet is recorded on the log of its own SSRC; the logs of other streams are not touched (streams are independent)
+//@ func (*Recorder).AddPacket
+//@   requires inv: recInv(r)
+//@   modifies r.streams[*], all streamLog.*, mem map[int64]*packetReport
+//@   ensures stream_exists: has(r.streams, ssrc) && r.streams[ssrc] != nil && r.streams[ssrc].ssrc == ite(washas(r.streams, ssrc), old(r.streams[ssrc].ssrc), ssrc)
+//@   ensures recorded_once: calls("add") == 1 && callarg("add", 0) == r.streams[ssrc] && callarg("add", 1) == ts && callarg("add", 2) == seq && callarg("add", 3) == ecn
+//@   ensures existing_stream_kept: washas(r.streams, ssrc) ==> r.streams[ssrc] == wasat(r.streams, ssrc)
+//@   ensures other_streams_untouched: forall s uint32 :: s != ssrc ==> has(r.streams, s) == washas(r.streams, s) && r.streams[s] == wasat(r.streams, s)
